@@ -185,13 +185,15 @@ RdStep(e) ==
             /\ UNCHANGED <<str, rbuf, tp, net, mgr>>
             /\ IF th.pkt.kind \in {"Invoke", "InvokeMetadata"}
                  THEN SetT(t, [th EXCEPT !.opc = "rd.offer", !.in = Idle])
+                 ELSE IF th.pkt.sid > th.msid     \* never invoked (th.msid = largest forwarded invoke): dropped
+                 THEN SetT(t, [th EXCEPT !.opc = "rd.loop", !.in = Idle])
                  ELSE SetT(t, [th EXCEPT !.opc = "rd.wait", !.in = Idle, !.waitid = m.sbuf])
        [] th.opc = "rd.offer" ->     \* select { m.pkts <- pkt ; <-term }
             /\ UNCHANGED <<str, rbuf, tp, net>>
             /\ IF m.term # U THEN SetT(t, [th EXCEPT !.opc = "done"]) /\ mgr' = [mgr EXCEPT ![e].rdDone = TRUE]
                ELSE /\ ~m.pkts.full /\ thr[SvT].opc = "sv.take" /\ e = "srv"    \* rendez-vous with NewServerStream
                     /\ mgr' = [mgr EXCEPT ![e].pkts = th.pkt]
-                    /\ SetT(t, [th EXCEPT !.opc = "rd.pdone"])
+                    /\ SetT(t, [th EXCEPT !.opc = "rd.pdone", !.msid = IF th.pkt.kind = "Invoke" THEN th.pkt.sid ELSE th.msid])
        [] th.opc = "rd.pdone" ->     \* m.pdone.Recv()
             /\ m.pdone = 1 /\ mgr' = [mgr EXCEPT ![e].pdone = 0]
             /\ SetT(t, [th EXCEPT !.opc = "rd.loop"]) /\ UNCHANGED <<str, rbuf, tp, net>>
@@ -276,7 +278,7 @@ NcsStep(t) ==
                   /\ SetT(t, [th EXCEPT !.opc = th.cont.fail, !.res = m.term])
        [] th.opc = "ncs.set" ->      \* m.sbuf.Set(stream)
             /\ mgr' = IF m.sbufClosed THEN mgr ELSE [mgr EXCEPT ![e].sbuf = th.sid]
-            /\ hmeta' = IF e = "srv" THEN [hmeta EXCEPT ![th.sid] = IF th.msid = th.sid THEN th.mval ELSE NONE] ELSE hmeta
+            /\ hmeta' = IF e = "srv" THEN [hmeta EXCEPT ![th.sid] = IF th.msid = th.sid THEN th.mval ELSE "nometa"] ELSE hmeta
             /\ SetT(t, [th EXCEPT !.opc = th.cont.created, !.waitid = IF e = "srv" THEN th.sid ELSE th.waitid]) /\ UNCHANGED <<str, wr>>
        [] OTHER -> FALSE
   /\ UNCHANGED <<net, rbuf, tp, rpc, nrpc, sctx, connmu, wire, wmark, nst, stims>>
@@ -303,8 +305,12 @@ CliStep(t) ==
             /\ UNCHANGED <<connmu, rpc, mgr>>
             /\ LET nxt == IF th.op = "Invoke" THEN "inv.w1" ELSE "ns.w1" IN
                IF rpc[th.r].meta # NONE
-                 THEN SetT(t, Call(th, "RawWrite", MsgArg("InvokeMetadata", 1, rpc[th.r].meta), nxt))
+                 THEN SetT(t, Call(th, "RawWrite", MsgArg("InvokeMetadata", 1, rpc[th.r].meta), "meta.written"))
                  ELSE SetT(t, [th EXCEPT !.opc = nxt, !.in = [Idle EXCEPT !.res = "nil"]])
+       [] th.opc = "meta.written" ->   \* drpcdebug.Point("conn.meta.written") after a successful metadata write
+            /\ UNCHANGED <<connmu, rpc, mgr>>
+            /\ LET nxt == IF th.op = "Invoke" THEN "inv.w1" ELSE "ns.w1" IN
+               SetT(t, [th EXCEPT !.opc = IF th.in.res = "nil" /\ "conn.meta.written" \in ArmedPoints THEN "pt.metaw" ELSE nxt])
        [] th.opc = "inv.w1" ->
             /\ UNCHANGED <<connmu, rpc, mgr>>
             /\ IF th.in.res # "nil" THEN SetT(t, [th EXCEPT !.opc = "inv.unlock", !.res = th.in.res, !.in = Idle])
@@ -491,8 +497,10 @@ Fault(e) ==
 
 RelPoint(t) ==
     /\ Bound /\ "point" \in StimKinds
-    /\ thr[t].opc \in {"pt.created", "pt.beforeset"}
-    /\ SetT(t, [thr[t] EXCEPT !.opc = IF thr[t].opc = "pt.created" THEN "inv.created" ELSE "ncs.set"])
+    /\ thr[t].opc \in {"pt.created", "pt.beforeset", "pt.metaw"}
+    /\ SetT(t, [thr[t] EXCEPT !.opc = CASE thr[t].opc = "pt.created" -> "inv.created"
+                                          [] thr[t].opc = "pt.beforeset" -> "ncs.set"
+                                          [] thr[t].opc = "pt.metaw" -> (IF thr[t].op = "Invoke" THEN "inv.w1" ELSE "ns.w1")])
     /\ Mark /\ Hist([k |-> "point", t |-> t])
     /\ UNCHANGED <<mgr, str, wr, net, rbuf, tp, rpc, nrpc, sctx, connmu, wire, hmeta>>
 
@@ -504,7 +512,7 @@ RelU(t) ==
     /\ UNCHANGED <<mgr, str, wr, net, rbuf, tp, rpc, nrpc, sctx, connmu, wire, hmeta>>
 
 Controllable ==
-    \/ \E t \in CliThreads, op \in {"Invoke", "NewStream"}, md \in {NONE, "M1"} : StartRPC(t, op, md)
+    \/ \E t \in CliThreads, op \in {"Invoke", "NewStream"}, md \in {NONE, "M1", "M2"} : StartRPC(t, op, md)
     \/ \E t \in CliThreads, op \in {"Send1", "Send2", "Recv", "CloseSend", "Close"}, r \in Sids : StartOp(t, op, r)
     \/ \E t \in CliThreads : StartClose(t)
     \/ \E a \in HActs : HStep(a)
@@ -540,7 +548,7 @@ AppObs(t) == LET th == thr[t] IN
       [] th.opc = "done" -> "done:" \o th.res
       [] th.in.pc = "tw" -> "tw"
       [] th.in.pc = "um" -> "um"
-      [] th.opc \in {"pt.created", "pt.beforeset"} -> "pt"
+      [] th.opc \in {"pt.created", "pt.beforeset", "pt.metaw"} -> "pt"
       [] th.opc = "h.wait" -> "h:" \o th.res
       [] OTHER -> "blk"
 LibObs(t) == LET th == thr[t] IN
@@ -576,6 +584,10 @@ Less(a, b) == a.sid < b.sid \/ (a.sid = b.sid /\ a.mid < b.mid)
 WireOrdered == \A e \in Eps : LET fl == Flat(e) IN \A i, j \in 1..Len(fl) : i < j =>
       /\ ~Less(fl[j], fl[i])
       /\ ((fl[i].sid = fl[j].sid /\ fl[i].mid = fl[j].mid) => fl[i].kind = fl[j].kind /\ ~fl[i].done)
+
+\* C11: the handler of stream s sees exactly the metadata of the call that created s
+MetaScoped == \A s \in Sids : hmeta[s] # NONE =>
+      \E r \in Sids : rpc[r].sid = s /\ hmeta[s] = (IF rpc[r].meta = NONE THEN "nometa" ELSE rpc[r].meta)
 
 Terminal == Quiescent /\ ~ENABLED Controllable
 EmitStims == (Gen /\ (Terminal \/ nst >= MaxStims) /\ Quiescent) => PrintT("@@" \o ToJson([stims |-> stims]))
